@@ -68,11 +68,11 @@ pub fn generate(tier: &str, rng: &mut Rng) -> Vec<Spec> {
         let xs: Vec<Rat> = (0..len).map(|k| if k % 97 == 0 { Rat::int(rng.range(-50, 50)) } else { Rat::new(rng.range(-6, 6) as i128, if int { 1 } else { rng.range(1, 3) as i128 }) }).collect();
         v.push(Spec::new("mean").with("N", n).with("ty", if int { "int" } else { "rat" }).with("xs", join_rats(&xs)));
     }
-    v
+    add_entry_points(v, rng, &["mean"], 40, |rng: &mut Rng| { let l = rng.range(1, 4); (0..l).map(|k| if k == 0 { rng.range(5, 9).to_string() } else { rng.range(-11, 11).to_string() }).collect::<Vec<_>>().join(",") })
 }
 
 fn run_rat<const N: usize>(xs: &[Rat], stats: &mut Stats) -> Outcome {
-    let mut f: Mean<Rat, N> = Mean::default();
+    let mut f: Mean<Rat, N> = enter(Mean::default(), stats, |f: &mut Mean<Rat, N>, t| { f.filter(Rat::parse(t)); });
     let mut ys = vec![]; let mut panic = false;
     for x in xs { match catch(|| f.filter(*x)) { Ok(y) => ys.push(y), Err(_) => { panic = true; stats.panics += 1; break } } }
     let g = f.into_guts();
@@ -80,7 +80,7 @@ fn run_rat<const N: usize>(xs: &[Rat], stats: &mut Stats) -> Outcome {
     Outcome::Case(format!("mk {} false {} {} {} {} {} {}", N, cqlist(xs), cqlist(&ys), cbool(panic), copt(&g.mean, cq), cqlist(&taps), cq(&g.weight)))
 }
 fn run_int<const N: usize>(xs: &[i64], stats: &mut Stats) -> Outcome {
-    let mut f: Mean<i64, N> = Mean::default();
+    let mut f: Mean<i64, N> = enter(Mean::default(), stats, |f: &mut Mean<i64, N>, t| { f.filter(t.parse::<i64>().unwrap()); });
     let mut ys = vec![]; let mut panic = false;
     for x in xs { match catch(|| f.filter(*x)) { Ok(y) => ys.push(y), Err(_) => { panic = true; stats.panics += 1; break } } }
     let g = f.into_guts();
